@@ -87,7 +87,7 @@ FAMILY = ["embedding", "text_embedded", "image_embedded", "embedding", "numerica
 
 
 CHEAP = ["embedding", "numerical", "categorical", "text_embedded", "numerical"]
-LARGE_ROWS = [256, 257, 513]
+LARGE_ROWS = [257, 513]
 
 
 def gen_case(rng, n=None):
@@ -189,7 +189,7 @@ def run_keyless(case):
 
 
 def generate(rng, tier):
-    n = 160 if tier == "quick" else 5000
+    n = 150 if tier == "quick" else 5000
     cases = [gen_case(rng) for _ in range(n)] + [{"kind": "keyless"}]
     cases += [gen_case(rng, n=r) for r in LARGE_ROWS]
     if tier == "thorough":
